@@ -6,14 +6,14 @@ from __future__ import annotations
 
 from fractions import Fraction
 
-from mi_common import est_line, gen_pair, impl_mi, impl_mi_history, kernel_key, tol
+from mi_common import VIEW_MODES, est_line, gen_pair, gen_series, impl_mi, impl_mi_history, impl_mi_views, kernel_key, series_views, tol
 from vp_common import Atom, Ctx, line, run_driver
 
 PROP = 'C01'
 RULE = ('pairs (Y,X) from one PRNG: n in 1..64 (60%), 65..1500 (37%), few thousands (3%; thorough up to 20000); families '
         'independent uniform over cardinalities {1,2,3,7,sqrt n,n/2,n}^2, Zipf, constant sides, all-distinct sides, Y=X, Y=perm(X), '
         'Y=f(X), planted signal with flips, singleton strata mixed with large ones, sparse codes < 2^20, equal-sum / equal-histogram pairs; plus call HISTORIES: 2-5 pairs scored through the same two arrays '
-        'refilled in place (the score must be a function of the vectors of the call only); plus WIDE-STRATUM pairs (n = 60000..200000, Y all distinct, X with 1-3 values: one stratum with up to 2*10^5 classes) checked against the closed form MI = H(X) without a model run. '
+        'refilled in place (the score must be a function of the vectors of the call only); plus VIEWS: the two vectors as overlapping / strided / reversed views of one buffer (lags of a series, same start address with strides 2 and 1, a matrix row against a column); plus WIDE-STRATUM pairs (n = 60000..200000, Y all distinct, X with 1-3 values: one stratum with up to 2*10^5 classes) checked against the closed form MI = H(X) without a model run. '
         'Non-trivial = both sides non-constant; distinct = distinct joint partition structure (first-occurrence relabeling of the zipped pair).')
 ASSUMPTIONS = ['float32/fastmath rounding inside numba is outside the model: |impl - model_Float64| <= 4e-6*(1+ln n)',
                'codes >= 0 (property quantifier); n <= 20000 in the tie (theorems are for all n)']
@@ -102,6 +102,42 @@ def evaluate_history(ctx: Ctx, histories, oracle_only=False):
                 break
 
 
+def evaluate_views(ctx: Ctx, cases, oracle_only=False):
+    """the two vectors handed in as overlapping VIEWS of one buffer: the score is a function of their contents all the same"""
+    conts = []
+    for c in cases:
+        Yv, Xv = series_views(c['series'], c['mode'])
+        conts.append((Yv.tolist(), Xv.tolist()))
+    req = []
+    for Y, X in conts:
+        req.append(est_line(Y, X, Fraction(1), False))
+        req.append(line(Atom('MI'), Atom('plugin'), Y, X))
+    rep = run_driver(req)
+    for k, (c, (Y, X)) in enumerate(zip(cases, conts)):
+        model, plugin = rep[2 * k], rep[2 * k + 1]
+        a, _, _, untouched = impl_mi_views(c['series'], c['mode'], 1.0, False)
+        n = len(X)
+        t = tol(n)
+        ctx.evaluations += 1
+        ctx.count('family:views/' + c['mode'])
+        ctx.count('views:buffer-' + ('unchanged' if untouched else 'MODIFIED-by-the-call'))
+        if len(set(Y)) > 1 and len(set(X)) > 1:
+            ctx.nontrivial.add(hash(('views', c['mode'], kernel_key(Y, X))))
+        short = (f'family=views mode={c["mode"]} (Y and X are views of ONE int32 buffer {c["series"][:14]}{"…" if len(c["series"]) > 14 else ""}) n={n} '
+                 f'Y={Y[:12]} X={X[:12]}')
+        if not oracle_only:
+            ctx.traces += 1
+            if not abs(a - model) <= t:
+                ctx.corr_fail('estimator', f'{short}: impl {a!r} vs model {model!r} (tol {t:.2e})', {'views': c})
+        if not abs(a - plugin) <= t:
+            ctx.oracle_fail('plugin', f'{short}: score {a!r} != plug-in MI {plugin!r} of the two vectors (tol {t:.2e}); on fresh copies of the same '
+                            f'contents the code gives {impl_mi(Y, X, 1.0, False)!r}', {'views': c})
+
+
+def gen_views(rng):
+    return {'series': gen_series(rng), 'mode': rng.choice(VIEW_MODES)}
+
+
 def wide_pair(spec):
     """all-distinct Y against an X with kx values: one stratum holds ~n/kx classes.  Closed form (no model run needed, the Lean
     model is quadratic): Y determines X, so the plug-in MI is H(X); for kx = 1 it is 0 (the property's own clause)."""
@@ -147,6 +183,7 @@ def run(ctx: Ctx):
     n = 6000 if ctx.thorough() else 900
     evaluate(ctx, corpus() + [gen_pair(ctx.rng, ctx.thorough()) for _ in range(n)])
     evaluate_history(ctx, [[[[0, 0], [0, 1]], [[0, 1], [0, 1]]]] + [gen_history(ctx.rng) for _ in range(600 if ctx.thorough() else 60)])
+    evaluate_views(ctx, [gen_views(ctx.rng) for _ in range(1500 if ctx.thorough() else 150)])
     evaluate_wide(ctx, wide_specs(ctx, 4 if ctx.thorough() else 1))
 
 
@@ -154,6 +191,8 @@ def replay(ctx: Ctx, payload):
     c = payload['case']
     if isinstance(c, dict) and 'history' in c:
         evaluate_history(ctx, [c['history']])
+    elif isinstance(c, dict) and 'views' in c:
+        evaluate_views(ctx, [c['views']])
     elif isinstance(c, dict) and 'wide' in c:
         evaluate_wide(ctx, [c['wide']])
     else:
@@ -172,5 +211,6 @@ def search(ctx: Ctx):
     cases += [gen_pair(sub.rng, False, maxn=400) for _ in range(3000)]
     evaluate(sub, cases, oracle_only=True)
     evaluate_history(sub, [gen_history(sub.rng) for _ in range(400)], oracle_only=True)
+    evaluate_views(sub, [gen_views(sub.rng) for _ in range(1500)], oracle_only=True)
     evaluate_wide(sub, wide_specs(sub, 2))
     return sub.oracle_failures
